@@ -833,6 +833,39 @@ class Gen:
             if idx:
                 i = r.choice(idx)
                 items[i] = {"k": "iftest", "body": [items[i]]}
+        elif not banked and shape < 0.35:
+            # one bank, two segments: the tests in one, the subroutines they call (with their assertions) in the other
+            def is_test(st):
+                return st["k"] in ("test", "iftest") or (st["k"] == "label" and st["hasBody"] and st["body"] and st["body"][0]["k"] == "test")
+            consts = [st for st in items if st["k"] == "const"]
+            tests = [st for st in items if is_test(st)]
+            rest = [st for st in items if st["k"] != "const" and not is_test(st)]
+            # every library routine ends with a passing and (half of them) a failing assertion of its own, and most tests call one first
+            def before_rts(ss):
+                out = []
+                for st in ss:
+                    if st["k"] == "insn" and st["mn"] == "rts":
+                        out.append(assert_(binop("<", ident("cpu.sp"), num(256)), None))
+                        if r.random() < 0.5:
+                            out.append(assert_(binop(">", ident("cpu.sp"), num(255)), self.fresh("libfails")))
+                    if st["k"] == "label" and st["hasBody"]:
+                        st["body"] = before_rts(st["body"])
+                    out.append(st)
+                return out
+            rest = before_rts(rest)
+            subs_in_lib = [st["name"] for st in rest if st["k"] == "label" and st["name"].startswith("sub")]
+
+            def call_first(st):
+                if st["k"] == "test":
+                    if subs_in_lib and r.random() < 0.7:
+                        st["body"].insert(1 if st["body"] and st["body"][0]["k"] == "setpc" else 0, insn("jsr", "dir", ident(r.choice(subs_in_lib))))
+                else:
+                    for x in st["body"]:
+                        call_first(x)
+            for st in tests:
+                call_first(st)
+            segdefs = [{"name": "lib", "bank": "bk", "start": r.choice([0x2000, 0x9000])}, {"name": "tests", "bank": "bk", "start": 0x6000}]
+            items = consts + ([useseg("lib", rest), useseg("tests", tests)] if r.random() < 0.5 else [useseg("tests", tests), useseg("lib", rest)])
         elif not banked and ntests >= 1 and r.random() < 0.2:
             # the last test (with the subroutines written behind it) lives in an imported file
             idx = max(i for i, st in enumerate(items) if st["k"] == "test" or (st["k"] == "label" and st["hasBody"] and st["body"] and st["body"][0]["k"] == "test"))
